@@ -30,6 +30,10 @@ EXPLANATION = (
 )
 TECHNIQUE += '; evaluation of the shared preparation helpers on abstract objects'
 EXPLANATION += " R2 evaluates prepare_unrestricted_aminusb and prepare_segmented / convert_to_segmented on abstract objects: the very same object comes back exactly when nothing needs converting, otherwise a converted copy is returned and the caller's object is untouched."
+# --- metadata added for batch 7
+TECHNIQUE += '; CFG / dataflow of the prepared object through the API; exception-flow of the pre-flight stage'
+EXPLANATION += " Added: (R5) the API writes and returns the object prepare_dump returned; (R6) the caller's allow_changes reaches prepare_dump and defaults to False; (R7) every exception of the pre-flight stage leaves dump_one / dump_many as PrepareDumpError (the exception-flow clause C08-R2: a funnel narrowed to a tuple lets NotImplementedError through). The ownership domain models attrs.asdict(recurse=False), np.array(copy=False) / np.asarray views, out= arguments and stores on function / class / module objects."
+# --- end metadata batch 7
 TRUSTED = [
     "CPython ast parser", "numpy view-vs-copy rules as tabulated in the ownership domain",
     "attrs.evolve makes a shallow copy", "basic slicing/attribute access returns views/members",
